@@ -12,7 +12,8 @@ one() {
   tier=quick
   [ "$tag" = C15-r3-2 ] && tier=thorough
   WT="$(mktemp -d /tmp/wt-re.XXXXXX)"; OUT="$(mktemp -d /tmp/out-re.XXXXXX)"; rmdir "$WT"
-  git -C /repo worktree add -q "$WT" HEAD 2>/dev/null || { echo "RECHECK $tag worktree-failed"; return; }
+  base=HEAD; [ -e "$d/base_commit" ] && base="$(cat "$d/base_commit")"   # a seed that a later fix: commit made moot is re-checked on the commit it was written for
+  git -C /repo worktree add -q --detach "$WT" "$base" 2>/dev/null || { echo "RECHECK $tag worktree-failed"; return; }
   pf="$d/patch.diff"; [ -e "$d/patch.rebased.diff" ] && pf="$d/patch.rebased.diff"   # rebased by hand when a later fix: commit moved the context
   if ! git -C "$WT" apply "$pf" 2>/dev/null && ! (cd "$WT" && patch -s -p1 < "/verif/$pf" >/dev/null 2>&1); then
     echo "RECHECK $tag patch-does-not-apply"
